@@ -779,6 +779,54 @@ TRUSTED = list(TRUSTED) + [py2lean.trusted_note("approx")]
 PROP_FILES = ["PersimVerif/Props/C08.lean"] + py2lean.prop_files("approx")
 
 
+def large_case_check(c):
+    """the statement on one large on-grid case (thousands of bars, hundreds of nodes): every endpoint is a node, so the
+    sampled values must EQUAL the k-th largest tent at every node (exact in floating point: small integers and halves)"""
+    D = np.array(c["bars"], dtype=float).reshape(-1, 2)
+    n, start, stop = c["n"], c["start"], c["stop"]
+    A = common.pm("landscapes.approximate").PersLandscapeApprox
+    with np.errstate(all="ignore"), contextlib.redirect_stdout(io.StringIO()):
+        st, P, _ = common.call(lambda: A(dgms=[D.copy()], hom_deg=0, start=start, stop=stop, num_steps=n))
+    if st == "err":
+        return False, "raised %s" % P
+    vals = np.asarray(P.values, dtype=float)
+    nodes = start + (stop - start) / (n - 1) * np.arange(n)
+    T = np.maximum(0.0, np.minimum(nodes[None, :] - D[:, 0:1], D[:, 1:2] - nodes[None, :]))
+    T = -np.sort(-T, axis=0)
+    k = vals.shape[0]
+    if vals.ndim != 2 or vals.shape[1] != n or k > len(T) + 1:
+        return False, "values has shape %r" % (vals.shape,)
+    Tk = np.vstack([T, np.zeros((max(0, k - len(T)), n))])
+    if not np.array_equal(Tk[:k], vals):
+        j = np.argwhere(Tk[:k] != vals)[0]
+        return False, "depth %d at node %d: code %r, true landscape %r" % (j[0], j[1], float(vals[j[0], j[1]]), float(Tk[j[0], j[1]]))
+    if np.any(T[k:] != 0):
+        return False, "depth %d and beyond are not returned although the true landscape is non-zero there" % k
+    return True, ""
+
+
+def stream_large(ctx):
+    """[T] thousands of bars on hundreds of nodes (bars x nodes above 2**20): size-dependent paths of the snapping and
+    of the per-node sort, which the small generated cases cannot reach"""
+    r = ctx.rng
+    for _ in range(ctx.n(2, 8)):
+        n = r.choice([420, 500, 512, 640])
+        m = r.randint((2 ** 20) // n + 50, (2 ** 20) // n + 900)
+        unit = r.choice([1.0, 0.5, 2.0])
+        bars = []
+        for _ in range(m):
+            i = r.randrange(0, n - 1)
+            j = min(n - 1, i + r.randint(1, 80))
+            bars.append([i * unit, j * unit])
+        c = {"op": "approx_large", "bars": bars, "n": n, "start": 0.0, "stop": (n - 1) * unit}
+        ok, why = large_case_check(c)
+        ctx.test("large_on_grid_exact", ok)
+        ctx.count("large:bars_x_nodes>2^20")
+        if not ok:
+            ctx.violation("grid landscape of %d on-grid bars on %d nodes is not the true landscape: %s" % (m, n, why), c, found_input=True)
+            return
+
+
 def pre_build(ctx):
     """source translator: regenerate Generated/Src*.lean from PERSIM_ROOT's source"""
     py2lean.pre_build(ctx, ("approx",))
@@ -796,6 +844,8 @@ def run(ctx):
             break
     if len(ctx.violations) <= 5:
         stream_vectorize_true(ctx)
+    if not any(f for _, f in ctx.violations):
+        stream_large(ctx)
     # line coverage of the anchored functions on a small slice (tracing is slow)
     with cov:
         for c in [gen_generic(ctx) for _ in range(10)] + [gen_exact(ctx) for _ in range(10)] + [gen_malformed(ctx) for _ in range(14)]:
@@ -829,6 +879,10 @@ def _short(v, n=400):
 
 
 def replay(ctx, rep):
+    if rep["case"].get("op") == "approx_large":
+        ok, why = large_case_check(rep["case"])
+        print("large on-grid case:", "holds" if ok else why)
+        return ok
     c = rep["case"]
     if "input" in c:
         c = c["input"]
